@@ -171,6 +171,10 @@ fn gen_batch_curve<G: AffineRepr>(curve: &str, ci: u64, seed: u64, tier: &str, s
     }
 }
 
+fn integrity_curve<G: AffineRepr>(curve: &str, ci: u64, seed: u64, tier: &str, out: &mut String) {
+    comp_hostile::integrity::<G>(curve, ci, seed, tier, out);
+}
+
 fn hostile_curve<G: AffineRepr>(curve: &str, ci: u64, seed: u64, tier: &str, out: &mut String, t: &mut Vec<String>, b: &mut Vec<String>, d: &mut Vec<String>) {
     comp_hostile::run::<G>(curve, ci, seed, tier, out, t, b, d);
 }
@@ -365,6 +369,29 @@ fn main() {
                     fs::write(format!("{}/cases_{}.v", outd, 100 * (ci + 1) + k), cq).unwrap();
                 }
                 println!("hostile {}: {} grid tuples, {} batches for the model", curve, tuples.len(), batches.len());
+            }
+        }
+        Some("integrity") => {
+            let seed: u64 = arg(&args[1..], "--seed", "1").parse().unwrap();
+            let tier = arg(&args[1..], "--tier", "quick");
+            let outd = arg(&args[1..], "--out", "/verif/work/integrity");
+            let only = arg(&args[1..], "--curves", "secq256k1,zorro,curve25519");
+            fs::create_dir_all(&outd).unwrap();
+            for (ci, curve) in CURVES.iter().enumerate() {
+                if !only.split(',').any(|c| c == *curve) {
+                    continue;
+                }
+                let mut out = String::new();
+                comp_hostile::set_mark_file(&format!("{}/current_{}.txt", outd, curve));
+                let r = std::panic::catch_unwind(std::panic::AssertUnwindSafe(|| {
+                    with_curve!(*curve, integrity_curve, curve, ci as u64, seed, &tier, &mut out);
+                }));
+                if r.is_err() {
+                    eprintln!("UNCAUGHT PANIC {}: {}", curve, run::last_panic());
+                    std::process::exit(101);
+                }
+                let _ = fs::remove_file(format!("{}/current_{}.txt", outd, curve));
+                fs::write(format!("{}/integrity_{}.txt", outd, curve), out).unwrap();
             }
         }
         Some("msmcheck") => cmd_msmcheck(&args[1..]),
